@@ -1,6 +1,8 @@
 import VerylModel.Driver.Store
+import VerylModel.Driver.Incr
 
 def main (args : List String) : IO UInt32 := do
   match args with
   | ["store"] => VerylModel.Driver.Store.run; return 0
+  | ["incr"] => VerylModel.Driver.Incr.run; return 0
   | _ => IO.eprintln s!"vmodel: unknown domain {args}"; return 2
